@@ -30,17 +30,15 @@ namespace pure {
             return false;
         if ( !a.want( name ))
             return false;
-        static const bool timing = getenv( "PURE_TIMING" ) != nullptr;     // optional: elapsed time at each variant start
-        if ( timing ) fprintf( stderr, "[t] %8.2f s  before %s\n", wall_now() - reg().t0, name.c_str());
         set_variant( name );
         return true;
     }
     inline unsigned worker_count() { return args().thorough ? 16u : 4u; }
-    // budget of the sampled (non-exhaustive) parts; the sanitizer build is 3-5 times slower per case
+    // budget of the sampled (non-exhaustive) parts; the sanitizer build is 3-5 times slower per case, so its quick tier samples 40 %
     inline uint64_t budget( uint64_t quick, uint64_t thorough )
     {
 #ifdef PURE_SANITIZED
-        return args().n( std::max<uint64_t>( 1, quick * 2 / 5 ), std::max<uint64_t>( 1, thorough * 2 / 5 ));
+        return args().n( std::max<uint64_t>( 1, quick * 2 / 5 ), thorough );
 #else
         return args().n( quick, thorough );
 #endif
@@ -138,6 +136,16 @@ namespace pure {
         std::string json() const { return "{\"sanitizer_message\":" + jstr( msg ) + ",\"at\":" + jstr( where ) + "}"; }
     };
     inline std::atomic<uint64_t>& probe_forks() { static std::atomic<uint64_t> s{ 0 }; return s; }
+
+    // Arguments >= 30 that get a probe (and, if the probe survives, an in-process evaluation) in the sanitized build. A dying child
+    // costs ~0.1 s, so the quick tier probes the interesting boundaries and a spread of larger values, the thorough tier every value.
+    inline bool probe_selected( unsigned v )
+    {
+        if ( args().thorough ) return true;
+        static const unsigned sel[] = { 30, 31, 32, 33, 40, 47, 48, 56, 62, 63 };
+        for ( unsigned x : sel ) if ( x == v ) return true;
+        return false;
+    }
 
     template <class F>
     inline ProbeResult ub_probe( F fn )
